@@ -79,6 +79,11 @@ def _case(ctx, d, rng, nd, score, pad, double, order, mask_kind, quick):
         hi_n = {2: 9, 3: 5}[nd] if quick else {2: 11, 3: 6}[nd]
         ms = [min(m, 3 if nd == 3 else 4) for m in ms]
     ns = [int(rng.integers(m, max(m + 1, hi_n + 1))) for m in ms]
+    if rng.random() < 0.15:
+        # template larger than the target on some axis: the correction branch of _fourier_padding
+        ax = int(rng.integers(0, nd))
+        if ms[ax] > 1:
+            ns[ax] = int(rng.integers(1, ms[ax]))
     rots = [r for r in S.grid_rotations(nd) if S.rot_ok_for_shape(r[0], ms)]
     perm, flip, R = rots[int(rng.integers(0, len(rots)))]
     target = rng.integers(-4, 5, size=ns)
@@ -287,6 +292,7 @@ def run(ctx):
         ctx.count("precision:" + ("f64" if double else "f32"))
         ctx.count("parity:" + "".join("e" if x % 2 == 0 else "o" for x in inp["ms"]) + "/" + "".join("e" if x % 2 == 0 else "o" for x in inp["ns"]))
         ctx.count("rotation:" + ("identity" if inp["perm"] == list(range(nd)) and not any(inp["flip"]) else "grid"))
+        ctx.count("template:" + ("larger-than-target" if any(m > n for m, n in zip(inp["ms"], inp["ns"])) else "fits"))
         ctx.count("mask:" + mask_kind)
         if i < 3:
             ctx.sample({k: v for k, v in inp.items() if k not in ("target", "mask", "targetMask")})
